@@ -42,9 +42,10 @@ Record cfg := {
   fout : item -> outcome       (* what the functor's loop body does with one item *)
 }.
 
-(* thread_pool.py:25-32 and range(parallelism) at :59/:75 (empty for a negative value) *)
+(* thread_pool.py:25-34 (threads=None -> cpu_count(); at least one worker; a sized iterable
+   clamps to its length) and range(parallelism) at the thread/sentinel loops *)
 Definition parallelism_z (c : cfg) : Z :=
-  let p := match threads c with Some t => t | None => cpu c end in
+  let p := Z.max (match threads c with Some t => t | None => cpu c end) 1 in
   match len_hint c with
   | Some n => Z.max (Z.min (Z.of_nat n) p) 0
   | None => p
